@@ -446,6 +446,111 @@ fn scenario_case(sink: &mut Sink, bin: &str, scratch: &str, sc: Scenario, choice
 /// the k-th decision vector of a scenario: fixed (replayable by index), starting with the vectors
 /// that overlap the critical sections, then alternating a binary counter over the first
 /// decisions with pseudo-random vectors
+/// A reader that is stopped while it holds its shared lock on the history keeps every writer out
+/// for the whole lock timeout.  A passing `check` with `auto_snapshot_on_check` then abandons its
+/// save; whatever it tells the user, a snapshot it reports as recorded must be in the history.
+fn stuck_reader_case(sink: &mut Sink, bin: &str, scratch: &str) {
+    if !sink.want() {
+        sink.skip();
+        return;
+    }
+    let dir = PathBuf::from(scratch).join(format!("c{}", sink.n));
+    let barrier = PathBuf::from(scratch).join(format!("bar{}", sink.n));
+    project(&dir);
+    std::fs::write(dir.join(".sloc-guard.toml"), "version = \"2\"\n[content]\nmax_lines = 1000\nextensions = [\"rs\"]\n[trend]\nauto_snapshot_on_check = true\n").unwrap();
+    let base_now = 1_700_000_000u64;
+    let _ = Command::new(bin).args(["snapshot", "--force", "--no-sloc-cache", "--quiet"]).current_dir(&dir).env("SLOC_GUARD_VERIF_NOW", (base_now - 200).to_string()).env("NO_COLOR", "1").output();
+    let _ = std::fs::remove_dir_all(&barrier);
+    std::fs::create_dir_all(&barrier).unwrap();
+    let mut reader = Command::new(bin)
+        .args(["stats", "trend", "--no-sloc-cache"])
+        .current_dir(&dir)
+        .env("NO_COLOR", "1")
+        .env("SLOC_GUARD_VERIF_BARRIER", &barrier)
+        .env("SLOC_GUARD_VERIF_BARRIER_FILE", "history.json")
+        .env("SLOC_GUARD_VERIF_NOW", base_now.to_string())
+        .stdin(Stdio::null())
+        .stdout(Stdio::piped())
+        .stderr(Stdio::piped())
+        .spawn()
+        .expect("spawn");
+    // let the reader run up to the point where it holds its shared lock
+    let mut released: BTreeSet<String> = BTreeSet::new();
+    let mut holding = false;
+    let t0 = Instant::now();
+    let mut step = |hold_at: Option<&str>, released: &mut BTreeSet<String>| -> bool {
+        let mut held = false;
+        if let Ok(rd) = std::fs::read_dir(&barrier) {
+            let mut names: Vec<String> = rd.flatten().map(|e| e.file_name().to_string_lossy().into_owned()).filter(|n| n.ends_with(".at")).collect();
+            names.sort();
+            for n in names {
+                let stem = n.trim_end_matches(".at").to_string();
+                if released.contains(&stem) {
+                    continue;
+                }
+                let point = stem.splitn(3, '.').nth(2).unwrap_or("").to_string();
+                if hold_at == Some(point.as_str()) {
+                    held = true;
+                } else {
+                    let _ = std::fs::write(barrier.join(format!("{stem}.go")), "");
+                    released.insert(stem);
+                }
+            }
+        }
+        held
+    };
+    while t0.elapsed() < Duration::from_secs(10) {
+        if step(Some("load.locked"), &mut released) {
+            holding = true;
+            break;
+        }
+        if let Ok(Some(_)) = reader.try_wait() {
+            break;
+        }
+        std::thread::sleep(Duration::from_millis(5));
+    }
+    let mut pred: Option<String> = None;
+    let mut tag = "auto-snapshot+stuck-reader/".to_string();
+    if holding {
+        let now = base_now + 5;
+        let o = Command::new(bin).args(["check", "--no-sloc-cache", "."]).current_dir(&dir).env("SLOC_GUARD_VERIF_NOW", now.to_string()).env("NO_COLOR", "1").output().expect("run check");
+        let said = String::from_utf8_lossy(&o.stderr).contains("Auto-snapshot recorded") || String::from_utf8_lossy(&o.stdout).contains("Auto-snapshot recorded");
+        // let the reader go
+        let t1 = Instant::now();
+        while t1.elapsed() < Duration::from_secs(10) {
+            step(None, &mut released);
+            if let Ok(Some(_)) = reader.try_wait() {
+                break;
+            }
+            std::thread::sleep(Duration::from_millis(5));
+        }
+        let rc = o.status.code().unwrap_or(-1);
+        if !(0..=1).contains(&rc) {
+            pred = Some(format!("`check` exits {rc}: {}", String::from_utf8_lossy(&o.stderr).lines().next().unwrap_or("")));
+        }
+        match history_timestamps(&dir) {
+            Ok(after) => {
+                let present = after.contains(&now);
+                tag += if said { "reported" } else if present { "recorded-silently" } else { "save-abandoned" };
+                if said && !present {
+                    pred = Some(format!("`check` reported \"Auto-snapshot recorded\" but its entry is not in the history ({} entries) — the save was abandoned after the lock timeout", after.len()));
+                }
+                if !after.contains(&(base_now - 200)) {
+                    pred = Some("the earlier entry is gone".to_string());
+                }
+            }
+            Err(e) => pred = Some(e),
+        }
+    } else {
+        tag += "reader-never-held-the-lock";
+    }
+    let _ = reader.kill();
+    let _ = reader.wait();
+    let _ = std::fs::remove_dir_all(&barrier);
+    let _ = std::fs::remove_dir_all(&dir);
+    sink.push(Case { request: "noop".into(), implementation: "-".into(), pred: pred.map_or_else(|| "ok".to_string(), |p| format!("FAIL {p}")), tag });
+}
+
 fn vector_for(scenario: usize, k: usize, seed: u64) -> Vec<usize> {
     match k {
         0 => (0..20).map(|i| (i + 1) % 2).collect(),
@@ -478,6 +583,11 @@ pub fn run(tier: Tier, seed: u64, out: &str) {
                 let v = vector_for(si, k, seed);
                 let _ = scenario_case(&mut sink, &bin, &scratch, sc, &v);
             }
+        }
+    }
+    if let Ok(bin) = std::env::var("SGVERIF_BIN") {
+        for _ in 0..tier.scale(1, 3) {
+            stuck_reader_case(&mut sink, &bin, &scratch);
         }
     }
     sink.extra.insert("trivial_tag_prefixes".into(), serde_json::json!([]));
